@@ -25,6 +25,9 @@ case "$CFG" in
   libm)      FEAT="--features libm" ;;
   assert)    FEAT="--features glam-assert" ;;
   scalar-assert) FEAT="--features scalar-math,glam-assert" ;;
+  coresimd-assert) FEAT="--features core-simd,glam-assert" ;;
+  neon-assert) TARGET="--target aarch64-unknown-linux-gnu"; ZSTD="-Zbuild-std=core"; FEAT="--no-default-features --features libm,glam-assert" ;;
+  wasm32-assert) TARGET="--target wasm32-unknown-emscripten"; ZSTD="-Zbuild-std=core"; FEAT="--no-default-features --features libm,glam-assert"; EXTRA="-Ctarget-feature=+simd128" ;;
   interop)   FEAT="--features serde,bytemuck,mint,rkyv,approx,rand" ;;
   interop-scalar) FEAT="--features serde,bytemuck,mint,rkyv,approx,rand,scalar-math" ;;
   interop-coresimd) FEAT="--features serde,bytemuck,mint,rkyv,approx,rand,core-simd" ;;
